@@ -291,10 +291,12 @@ def catalogue():
                     "th": cs.choice("th", [0.0, 1.0])}, weight=6)
     add("dutils.var2h", [("s", "irregular", None)],
         lambda a, o: dutils.var2h(a.s, nbsec_per_period=o["p"],
-                                  maxgapsec=o["gap"], rainfall=o["r"]),
+                                  maxgapsec=o["gap"], rainfall=o["r"],
+                                  display=o["d"]),
         lambda cs: {"p": cs.choice("p", [3600, 1800]),
                     "gap": cs.choice("gap", [432000, 3600, 7200]),
-                    "r": cs.flip("r", 40)}, weight=6)
+                    "r": cs.flip("r", 40),
+                    "d": cs.flip("d", 40)}, weight=6)
     add("signatures.eckhardt", [V],
         lambda a, o: signatures.eckhardt(a.x, thresh=o["th"], tau=o["tau"],
                                          BFI_max=o["b"],
@@ -550,4 +552,122 @@ def catalogue():
         lambda a, o: chd.combi(o["n"], o["k"]),
         lambda cs: {"n": cs.choice("n", [5, 0, 1, 30, 60, -1]),
                     "k": cs.choice("k", [2, 0, 1, 15, 30, 61, -1])}, weight=2)
+    return E
+
+
+# ---------------------------------------------------------------------------
+# "random larger ones": lengths and cell counts straddling the places where
+# products of sizes leave 32-bit range (n*n at 46341 and 65536, n*m at a few
+# hundred thousand), one call per workload because some kernels are O(n^2).
+# ---------------------------------------------------------------------------
+BIG_N = [46341, 46350, 65536, 65537, 92682]
+
+
+def big_catalogue():
+    import pandas as pd
+    from hydrodiy.stat import metrics, sutils, armodels
+    from hydrodiy.data import dutils, qualitycontrol, signatures
+    from hydrodiy.gis import grid as hgrid, gutils
+    from hydrodiy.gis.grid import Grid, Catchment
+
+    E = []
+
+    def add(name, fn, weight=1):
+        E.extend([(name, fn)] * weight)
+
+    def ens(rs, n, m):
+        return np.exp(rs.normal(0, 1, (n, m)))
+
+    add("metrics.crps", lambda rs, n: metrics.crps(
+        np.exp(rs.normal(0, 1, n)), ens(rs, n, int(rs.choice([1, 3])))), 3)
+    add("sutils.pareto_front", lambda rs, n: sutils.pareto_front(
+        rs.uniform(0, 1, (n, 2)), orientation=int(rs.choice([1, -1]))), 2)
+    add("dutils.aggregate", lambda rs, n: dutils.aggregate(
+        (np.arange(n) // int(rs.choice([1, 7, 40000]))).astype(np.int32),
+        rs.uniform(0, 1, n), operator=int(rs.choice([0, 1])), maxnan=0))
+    add("dutils.flathomogen", lambda rs, n: dutils.flathomogen(
+        (np.arange(n) // int(rs.choice([1, 7, 40000]))).astype(np.int32),
+        rs.uniform(0, 1, n), maxnan=1))
+    add("qualitycontrol.islinear", lambda rs, n: qualitycontrol.islinear(
+        np.round(rs.uniform(0, 3, n)), npoints=int(rs.choice([1, 3, 50000]))))
+    add("signatures.eckhardt", lambda rs, n: signatures.eckhardt(
+        rs.uniform(0, 1, n)))
+    add("armodels.sim+residual", lambda rs, n: (
+        armodels.armodel_sim(np.array([0.5, 0.2]), rs.normal(0, 1, n)),
+        armodels.armodel_residual(np.array([0.5, 0.2]),
+                                  rs.normal(0, 1, n))))
+    add("metrics.anderson_darling_test", lambda rs, n:
+        metrics.anderson_darling_test(rs.uniform(0, 1, n)))
+    add("sutils.acf", lambda rs, n: sutils.acf(rs.normal(0, 1, n), maxlag=5))
+
+    def var2h(rs, n):
+        secs = np.cumsum(rs.choice([60, 300, 1800, 7200], size=n))
+        t = (pd.to_datetime("2001-03-01 00:10:00") +
+             pd.to_timedelta(secs, unit="s")).as_unit("ns")
+        return dutils.var2h(pd.Series(rs.uniform(0, 1, n), index=t),
+                            display=bool(rs.randint(2)),
+                            nbsec_per_period=int(rs.choice([3600, 1800])))
+    add("dutils.var2h", var2h, 2)
+
+    def biggrid(rs, n):
+        shape = [(216, 216), (1, n), (n, 1), (256, 257)][rs.randint(4)]
+        nr, nc = shape
+        g = Grid("big", nc, nr, cellsize=0.5, xllcorner=10.0, yllcorner=-5.0,
+                 dtype=np.int64, nodata=0)
+        # every cell drains east or south; last row east, last column south,
+        # corner is the sink: acyclic
+        d = rs.choice([1, 4], size=(nr, nc))
+        d[-1, :] = 1
+        d[:, -1] = 4
+        d[-1, -1] = 0
+        g.data[...] = d
+        return g
+
+    def gridwork(rs, n):
+        g = biggrid(rs, n)
+        nr, nc = g.nrows, g.ncols
+        linear = nr == 1 or nc == 1   # one chain: accumulation is O(n^2)
+        out = []
+        if not linear:
+            out.append(hgrid.accumulate(
+                g, nprint=int(rs.choice([0, 10000]))).data.sum())
+        f = Grid("alt", nc, nr, cellsize=0.5, xllcorner=10.0, yllcorner=-5.0,
+                 dtype=np.float64, nodata=-9999.0)
+        f.data[...] = rs.uniform(0, 100, (nr, nc))
+        out.append(float(np.nansum(hgrid.slope(g, f, nprint=0).data)))
+        out.append(g.neighbours(nr * nc - 1))
+        xy = np.column_stack([rs.uniform(9, 10 + nc * 0.5 + 1, n),
+                              rs.uniform(-6, -5 + nr * 0.5 + 1, n)])
+        out.append(g.coord2cell(xy).sum())
+        return out
+    add("grid.accumulate/slope/neighbours/coord2cell", gridwork, 2)
+
+    def catchwork(rs, n):
+        g = biggrid(rs, n)
+        nr, nc = g.nrows, g.ncols
+        c = Catchment("bigcat", g)
+        c.delineate_area(nr * nc - 1, nval=nr * nc + 5)
+        out = [len(c.idxcells_area)]
+        c.delineate_boundary()
+        if nr > 1 and nc > 1:
+            c.compute_flowpathlengths()
+        out.append(len(c.idxcells_boundary))
+        coarse = Grid("coarse", max(1, nc // 8), max(1, nr // 8), cellsize=4.0,
+                      xllcorner=10.0, yllcorner=-5.0, dtype=np.float64)
+        try:
+            out.append(len(c.intersect(coarse)[0]))
+        except Exception as ex:
+            out.append(type(ex).__name__)
+        xy = np.column_stack([rs.uniform(10, 10 + nc * 0.5, 5),
+                              rs.uniform(-5, -5 + nr * 0.5, 5)])
+        out.append(float(np.sum(hgrid.voronoi(c, xy))))
+        return out
+    add("Catchment(big).delineate/boundary/flowpaths/intersect/voronoi",
+        catchwork, 2)
+
+    def pip(rs, n):
+        poly = np.array([[0, 0], [1, 0.2], [0.8, 1], [0.3, 0.6], [0, 1.0]])
+        pts = rs.uniform(-0.2, 1.2, (n, 2))
+        return gutils.points_inside_polygon(pts, poly).sum()
+    add("gutils.points_inside_polygon", pip)
     return E
